@@ -1,10 +1,11 @@
 /-
   C17 — write padding only appends zeros and is invisible to the device.
-  STATEMENTS (to be proved; file moves to NxsModel/Props/C17.lean when no `sorry` is left).
+  Property theorems only (helper lemmas in Lemmas/).
 -/
 import NxsModel.Pad
 import NxsModel.Dispatch
 import NxsModel.Lemmas.Accept
+import NxsModel.Lemmas.Pad
 namespace Nxs.C17
 open Nxs
 
@@ -12,19 +13,19 @@ open Nxs
     and is otherwise unchanged; `p = 0` changes nothing -/
 theorem align_spec (p : Nat) (d : Bytes) :
     ∃ k, (p = 0 → k = 0) ∧ (p > 0 → k < p ∧ p ∣ d.length + k) ∧
-      Pad.dataAlign p d = d ++ List.replicate k 0 := sorry
+      Pad.dataAlign p d = d ++ List.replicate k 0 := Pad.dataAlign_spec p d
 
 /-- the device-side receiver reacts to a padded request exactly as to the unpadded one
     (for every write `w` the receiver reacts to at all; `k` zero bytes appended) -/
 theorem padded_same (w : Bytes) (k : Nat) (h : Dispatch.recvHandle w ≠ .ignored) :
-    Dispatch.recvHandle (w ++ List.replicate k 0) = Dispatch.recvHandle w := sorry
+    Dispatch.recvHandle (w ++ List.replicate k 0) = Dispatch.recvHandle w := Pad.recvHandle_append w _ h
 
 /-- hence through `dataAlign` for every padding value -/
 theorem aligned_same (p : Nat) (w : Bytes) (h : Dispatch.recvHandle w ≠ .ignored) :
-    Dispatch.recvHandle (Pad.dataAlign p w) = Dispatch.recvHandle w := sorry
+    Dispatch.recvHandle (Pad.dataAlign p w) = Dispatch.recvHandle w := Pad.recvHandle_dataAlign p w h
 
 /-- a write consisting only of padding triggers no reaction -/
-theorem padding_only_ignored (k : Nat) : Dispatch.recvHandle (List.replicate k 0) = .ignored := sorry
+theorem padding_only_ignored (k : Nat) : Dispatch.recvHandle (List.replicate k 0) = .ignored := Pad.recvHandle_zeros k
 
 example : Pad.dataAlign 16 [0x55, 0x06, 0x00, 0x02, 0x5b, 0x9c] =
     [0x55, 0x06, 0x00, 0x02, 0x5b, 0x9c, 0, 0, 0, 0, 0, 0, 0, 0, 0, 0] := by decide
